@@ -378,8 +378,16 @@ def gen_cases(rng, n):
 
 
 # ------------------------------------------------------------------ implementation
-def _mk_pool(log, spec):
+def _mk_pool(log, spec, touch=None):
+    """recording pool: logs every demand write; `touch` (optional) is called on every attribute read"""
     from cobald.interfaces import Pool
+
+    def read(name):
+        def get(self):
+            if touch is not None:
+                touch()
+            return getattr(self, name)
+        return property(get)
 
     class RecPool(Pool):
         supply = utilisation = allocation = demand = None
@@ -387,12 +395,14 @@ def _mk_pool(log, spec):
         def __init__(self, s, d, u, a):
             self._s, self._d, self._u, self._a = s, d, u, a
 
-        supply = property(lambda self: self._s)
-        utilisation = property(lambda self: self._u)
-        allocation = property(lambda self: self._a)
+        supply = read("_s")
+        utilisation = read("_u")
+        allocation = read("_a")
 
         @property
         def demand(self):
+            if touch is not None:
+                touch()
             return self._d
 
         @demand.setter
@@ -494,18 +504,23 @@ def _run_stepwise(ctrl, pool, log, ops, itv):
     return obs
 
 
-def run_impl(case):
+class Rejected(Exception):
+    pass
+
+
+def build(case, pool, log):
+    """construct the real controller described by `case` against `pool`; rule / slave calls are
+    appended to `log`.  Returns (controller, info); raises Rejected(exception name) when the constructor
+    refuses the arguments."""
     from cobald.interfaces import Controller
     from cobald.controller.linear import LinearController
     from cobald.controller.relative_supply import RelativeSupplyController
     from cobald.controller.stepwise import Stepwise, RangeSelector
     from cobald.controller.switch import DemandSwitch
-    log = []
-    pool = _mk_pool(log, case["pool"])
+    from cobald.utility import InvariantError
     kind = case["kind"]
-    res = {"accepted": False, "obs": [], "on_target": [], "probe_obs": []}
-
-    rules = {}
+    info = {"on_target": [], "rules": {}, "selector": None}
+    rules = info["rules"]
 
     def rule_obj(i):
         if i not in rules:
@@ -528,7 +543,7 @@ def run_impl(case):
         elif kind == "stepwise":
             rl = [(num(t), rule_obj(i)) for t, i in case["rules"]]
             ctrl = Stepwise(pool, rule_obj(case["base"]), *rl, interval=num(case["itv"]))
-            sel = RangeSelector(rule_obj(case["base"]), *rl)
+            info["selector"] = RangeSelector(rule_obj(case["base"]), *rl)
         elif kind == "switch":
             other = _mk_pool([], ["0/1", "0/1", "0/1", "0/1"])
 
@@ -570,15 +585,26 @@ def run_impl(case):
             for it in case["items"]:
                 items.append(fnum(it[1]) if it[0] == "num" else ctls[it[1]] if it[0] == "ctl" else "junk")
             ctrl = DemandSwitch(pool, ctls[case["default"]], *items, interval=num(case["itv"]))
-            res["on_target"] = [c.target is pool for c in ctls]
+            info["on_target"] = [c.target is pool for c in ctls]
         else:
             raise ValueError(kind)
-    except Exception as e:
-        from cobald.utility import InvariantError
-        if isinstance(e, (AssertionError, ValueError, TypeError, InvariantError)):
-            res["rejected_by"] = type(e).__name__
-            return res
-        raise
+    except (AssertionError, ValueError, TypeError, InvariantError) as e:
+        raise Rejected(type(e).__name__)
+    return ctrl, info
+
+
+def run_impl(case):
+    log = []
+    pool = _mk_pool(log, case["pool"])
+    kind = case["kind"]
+    res = {"accepted": False, "obs": [], "on_target": [], "probe_obs": []}
+    try:
+        ctrl, info = build(case, pool, log)
+    except Rejected as e:
+        res["rejected_by"] = str(e)
+        return res
+    rules, sel = info["rules"], info["selector"]
+    res["on_target"] = info["on_target"]
     res["accepted"] = True
     if log:
         res["ctor_effects"] = _canon_log(log)       # a constructor must not touch the pool
